@@ -501,6 +501,11 @@ def step_line(st):
         return f"infosf {ptok(st['file'])} " + (f"1 {root}" if st.get("root") is not None else "0")
     if op == "flatten":
         return f"flatten {root}"
+    if op == "verifypl":
+        # the packing list is what the latest flatten wrote; the model recomputes it from the (unchanged) history at _pl_src
+        if st.get("_pl_src") is None:
+            return None
+        return " ".join(["verifypl", root, ptok(st["_pl_src"])] + lst(st.get("i") or [], core.tok))
     if op in ("set", "add"):
         return f"set {ptok(st['path'])} {st['data'] or '-'}"
     if op == "mkdir":
@@ -573,7 +578,14 @@ def run_model(scn, model):
     if r != "ok":
         raise RuntimeError("model init failed: " + r)
     out = []
+    pl_src = None                 # root of the latest flatten, as long as no later command can have changed a history
     for st in scn["steps"]:
+        if st["op"] == "flatten":
+            pl_src = st.get("root", "") or ""
+        elif st["op"] in ("create", "tamper", "rmmanifest", "rmchain") or (st["op"] in ("rename", "delete") and pl_src is not None):
+            pl_src = None
+        if st["op"] == "verifypl":
+            st = dict(st, _pl_src=pl_src)
         line = step_line(st)
         if line is None:
             out.append(None)
@@ -597,7 +609,7 @@ def comparable(o, op, st=None):
     c = {"outcome": o["outcome"] if o["outcome"][0] == "exit" else ["abort"],
          "written": sorted(({k: v for k, v in g.items() if k != "has_hashes"} for g in o["written"]), key=lambda g: g["hist"]),
          "missing": sorted(o["missing"])}
-    if op in ("verify", "diff"):
+    if op in ("verify", "diff", "verifypl"):
         c["mismatch"] = sorted(o["mismatch"])
         c["new"] = sorted(o["new"])
     if op in ("info", "infosf"):
